@@ -97,6 +97,11 @@ func (fr *Frame) sliceOp(st *State, in *ssa.Slice) Val {
 			hi = n
 		}
 		if x.L != nil {
+			if al, ok := in.X.(*ssa.Alloc); ok && ex.ghost > 0 && al.Comment == "varargs" {
+				// the operand list of a variadic call inside a specification: the callee's model reads the operands
+				// from the instruction (variadicBasicOperands), the slice value itself is never inspected
+				return Val{T: ex.ctx.Fresh("ghostargs", SSlc)}
+			}
 			ex.unsupported("slicing a local array")
 		}
 		fr.safety(st, "slice", And(Le(IntLit(0), lo), Le(lo, hi), Le(hi, n)), in.Pos(), in)
